@@ -151,6 +151,8 @@ add2("frame.expanding.x.mean", "expanding.mean", "last", lambda d: d.expanding()
 add2("frame.expanding[[x,y]].count", "expanding.count", "last", lambda d: d.expanding()[["x", "y"]].count(), cols=("x", "y"))
 add2("rolling(2).quantile(.5)", "rolling(n).quantile", "concat", lambda d: d.x.rolling(2).quantile(0.5))
 add2("rolling(3).quantile(.25)", "rolling(n).quantile", "concat", lambda d: d.x.rolling(3).quantile(0.25))
+add2("rolling(2).aggregate(sum)", "rolling(n).sum", "concat", lambda d: d.x.rolling(2).aggregate("sum"))
+add2("rolling(3).aggregate(max)", "rolling(n).max", "concat", lambda d: d.x.rolling(3).aggregate("max"))
 add2("rolling(2).std(0)", "rolling(n).std", "concat", lambda d: d.x.rolling(2).std(0))
 add2("rolling(3).var(0)", "rolling(n).var", "concat", lambda d: d.x.rolling(3).var(0))
 add2("rolling(3).std[ddof=2]", "rolling(n).std", "concat", lambda d: d.x.rolling(3).std(ddof=2))
